@@ -992,3 +992,77 @@ B("C18", "reader-inline-segment", CONT,
                     continuum.add(row[0], seg, row[1])""",
   """                try:
                     continuum.add(row[0], Segment(float(row[2]), float(row[3])), row[1])""")
+
+# =============================================================================================
+# C05
+# =============================================================================================
+M("C05", "second-batch-not-collected", CONT,
+  """                    for i, result in enumerate(result_pool):
+                        chance_best_alignments.append(result.result())
+                        logging.info(f"finished computation of additionnal random sample dissimilarity \"""",
+  """                    for i, result in enumerate(result_pool):
+                        result.result()
+                        logging.info(f"finished computation of additionnal random sample dissimilarity \"""", "R-C05-3")
+M("C05", "square-dropped", CONT,
+  "                required_samples = np.ceil((variation_coeff * confidence / precision_level) ** 2).astype(np.int32)",
+  "                required_samples = np.ceil((variation_coeff * confidence / precision_level)).astype(np.int32)", "R-C05-4")
+M("C05", "confidence-outside-square", CONT,
+  "                required_samples = np.ceil((variation_coeff * confidence / precision_level) ** 2).astype(np.int32)",
+  "                required_samples = np.ceil((variation_coeff / precision_level) ** 2 * confidence).astype(np.int32)", "R-C05-4")
+M("C05", "sample-hoisted", CONT,
+  """            result_pool = [
+                # Step one : computing the disorders of a batch of random samples from the continuum (done in parallel)
+                p.submit(job,
+                         *(dissimilarity, sampler.sample_from_continuum))
+                for _ in range(n_samples)
+            ]""",
+  """            one_sample = sampler.sample_from_continuum
+            result_pool = [
+                # Step one : computing the disorders of a batch of random samples from the continuum (done in parallel)
+                p.submit(job,
+                         *(dissimilarity, one_sample))
+                for _ in range(n_samples)
+            ]""", "R-C05-2", "the same sample aligned n times: expected disorder has zero variance")
+M("C05", "expected-over-first-30", CONT,
+  "        return float(np.mean([align.disorder for align in self.chance_alignments]))",
+  "        return float(np.mean([align.disorder for align in self.chance_alignments[:30]]))", "R-C05-5")
+M("C05", "soft-mapped-to-exact-job", CONT,
+  "        if soft:\n            job = _compute_soft_alignment_job", "        if soft:\n            job = _compute_best_alignment_job", "R-C05-1")
+M("C05", "observed-with-exact-job-in-fast-mode", CONT,
+  "            best_alignment_task = p.submit(job,\n                                           *(dissimilarity, self))",
+  "            best_alignment_task = p.submit(_compute_best_alignment_job,\n                                           *(dissimilarity, self))", "R-C05-1",
+  "observed disorder exact, expected disorders fast: gamma mixes two kinds of alignment")
+M("C05", "ground-truth-annotators-dropped", CONT,
+  "        sampler.init_sampling(self, ground_truth_annotators)", "        sampler.init_sampling(self)", "R-C05-2")
+M("C05", "init-sampling-only-for-default-sampler", CONT,
+  """            sampler = StatisticalContinuumSampler()
+        sampler.init_sampling(self, ground_truth_annotators)""",
+  """            sampler = StatisticalContinuumSampler()
+            sampler.init_sampling(self, ground_truth_annotators)""", "R-C05-2", "a user-supplied sampler keeps its previous reference continuum")
+M("C05", "second-batch-size-required", CONT,
+  "                        for _ in range(required_samples - n_samples)\n                    ]",
+  "                        for _ in range(required_samples)\n                    ]", "R-C05-3")
+M("C05", "gamma-guard-after-division", CONT,
+  """        observed_disorder = self.observed_disorder
+        if observed_disorder == 0:
+            return 1
+        return 1 - observed_disorder / self.expected_disorder""",
+  """        observed_disorder = self.observed_disorder
+        return 1 - observed_disorder / self.expected_disorder""", "R-C05-5")
+M("C05", "cv-over-all-disorders-including-observed", CONT,
+  "            best_alignment = best_alignment_task.result()\n            logging.info(\"Best alignment obtained\")",
+  "            best_alignment = best_alignment_task.result()\n            chance_disorders.append(best_alignment.disorder)\n            logging.info(\"Best alignment obtained\")", "R-C05-4")
+M("C05", "fast-job-fallback-inverted", CONT,
+  "    if continuum.best_window_size == np.inf:  # window size is set to infinity when normal gamma is better.",
+  "    if continuum.best_window_size != np.inf:  # window size is set to infinity when normal gamma is better.", "R-C05-1")
+B("C05", "first-pool-as-loop", CONT,
+  """            result_pool = [
+                # Step one : computing the disorders of a batch of random samples from the continuum (done in parallel)
+                p.submit(job,
+                         *(dissimilarity, sampler.sample_from_continuum))
+                for _ in range(n_samples)
+            ]""",
+  """            result_pool = [p.submit(job, dissimilarity, sampler.sample_from_continuum) for _ in range(n_samples)]""")
+B("C05", "confidence-inlined", CONT,
+  "                required_samples = np.ceil((variation_coeff * confidence / precision_level) ** 2).astype(np.int32)",
+  "                required_samples = np.ceil((1.96 * variation_coeff / precision_level) ** 2).astype(np.int32)")
